@@ -9,11 +9,11 @@ import (
 	"flag"
 	"fmt"
 	"net/http"
-	"net/http/httptest"
 	"path"
 	"sort"
 	"strings"
 	"sync"
+	"verifharness/internal/netx"
 
 	"github.com/ipni/go-libipni/dhash"
 	"github.com/ipni/go-libipni/find/client"
@@ -172,7 +172,7 @@ func dhstoreServer() string {
 			}
 			http.NotFound(w, r)
 		})
-		httpURL = httptest.NewServer(mux).URL
+		httpURL = netx.NewServer(mux).URL
 	})
 	return httpURL
 }
